@@ -691,6 +691,9 @@ class Interp:
             vals.append(self.snapshot(st, a, info['site']))
         term = ('call', name, info['targs'], tuple(vals))
         for a, ty in zip(args, info['argtys'] + [''] * len(args)):
+            if ty.startswith('&mut ') or 'DepsMut' in ty:
+                # an unmodelled callee that can mutate through its argument: recorded so that rules can refuse to trust it
+                st.effects.append(('opaque_mut_call', name, None, ty, None, info['site'], st.stack, len(st.facts)))
             if ty.startswith('&mut ') and a[0] == 'ref':
                 self.write_addr(st, a[1], ('mutated', term, self.read_addr(st, a[1])))
         return term
